@@ -223,6 +223,21 @@ func (e *Engine) Resolve(ops []AnchOp, opts ...document.ResolutionOption) (View,
 	return e.guarded(func() (*protocol.ResolutionModel, error) { return p.Resolve(e.Suffix, opts...) })
 }
 
+// ResolveWithExtra is Resolve with further, hand-made published operations put in FRONT of the store's operations.
+func (e *Engine) ResolveWithExtra(ops []AnchOp, extra []*operation.AnchoredOperation) (View, *protocol.ResolutionModel, error) {
+	pub := &wire.SliceStore{Ops: append([]*operation.AnchoredOperation{}, extra...)}
+	unpub := &wire.SliceStore{}
+	for _, a := range ops {
+		if a.Pub {
+			pub.Ops = append(pub.Ops, e.Anchored(a))
+		} else {
+			unpub.Ops = append(unpub.Ops, e.Anchored(a))
+		}
+	}
+	p := processor.New("verif", pub, e.PC, processor.WithUnpublishedOperationStore(unpub))
+	return e.guarded(func() (*protocol.ResolutionModel, error) { return p.Resolve(e.Suffix) })
+}
+
 // guarded runs a real resolution; a panic inside the library becomes a view that equals no specification view
 // (document token -99) instead of crashing the harness.
 func (e *Engine) guarded(f func() (*protocol.ResolutionModel, error)) (v View, rm *protocol.ResolutionModel, err error) {
